@@ -216,6 +216,73 @@ def run_cases(chk, cases):
     return events, meta
 
 
+IMPORTED_SHAPES = {"plain": "{t}", "vec": "Vec<{t}>", "option": "Option<{t}>", "map_key": "HashMap<{t}, String>", "map_val": "HashMap<String, {t}>",
+                   "gen_first": "Pair<{t}, String>", "gen_last": "Pair<String, {t}>", "gen_nested_first": "Vec<Pair<Option<{t}>, Vec<u32>>>",
+                   "map_key_nested": "Vec<HashMap<{t}, Vec<u32>>>"}
+
+
+def imported(chk):
+    """MC_C09_imported: the target lives in a provider crate, the consumer crate names it once, in one shape of type expression
+    (folder output through the library, both crates generated in one run)."""
+    res = common.run_tlc("MC_C09_imported", cfg="MC_C09_imported", workers=2, timeout=300)
+    chk.add_tlc("MC_C09_imported", res)
+    if not res.replays:
+        raise ToolError("MC_C09_imported produced no cases")
+    jobs, jmeta = [], []
+    for c in res.replays:
+        case = c["case"]
+        ren = '#[serde(rename = "TargetRenamed")]\n' if case["renamed"] else ""
+        prov = f"#[typeshare]\n{ren}pub struct Target {{ pub t: u32 }}\n#[typeshare]\npub struct Other {{ pub o: u32 }}\n"
+        use = {"use_single": "use provider::Target;\n", "use_group": "use provider::{Other, Target};\n", "qualified": ""}[case["form"]]
+        t = "provider::Target" if case["form"] == "qualified" else "Target"
+        cons = (use + f"#[typeshare]\npub struct Consumer {{ pub only_ref: {IMPORTED_SHAPES[case['shape']].format(t=t)}, pub keep: u32 }}\n"
+                "#[typeshare]\npub struct Pair<A, B> { pub a: A, pub b: B }\n")
+        for lang in (["swift", "kotlin"] if case["prefix"] else [l for l in common.LANGS if l != "go"]):          # Go has no folder mode
+            cfg = dict(observe.DEFAULT_CFG[lang], **({"prefix": case["prefix"]} if case["prefix"] else {}))
+            jobs.append({"id": len(jobs), "lang": lang, "multi_file": True, "cfg": cfg,
+                         "files": [{"src": cons, "crate": "consumer", "path": "consumer/src/lib.rs", "out": "consumer"},
+                                   {"src": prov, "crate": "provider", "path": "provider/src/lib.rs", "out": "provider"}]})
+            jmeta.append((lang, c, cons))
+    events, meta = [], []
+    for (lang, c, cons), r in zip(jmeta, common.run_driver("gen", jobs)):
+        case = c["case"]
+        if r["status"] in ("panic", "abort", "hang"):
+            continue
+        if r["status"] != "ok":
+            chk.refused(f"{lang}/imported", f"{lang}: two-crate program rejected: {str(r.get('errors'))[:200]}", {"case": case, "lang": lang, "site": "imported", "src": cons})
+            continue
+        try:
+            oc, op = observe.extract(lang, r["outputs"].get("consumer", "")), observe.extract(lang, r["outputs"].get("provider", ""))
+        except Exception:  # noqa
+            chk.extra.setdefault("unreadable_outputs", {}).setdefault(lang, 0)
+            chk.extra["unreadable_outputs"][lang] += 1
+            continue
+        host = observe.find_def(oc, case["prefix"] + "Consumer", "Consumer")
+        m = [x for x in (host or {}).get("members", []) if x["key"] == "only_ref"]
+        ref = target_leaf(m[0]["ty"], {case["prefix"] + "Pair", "Pair", "String"}) if m else None
+        if ref is None:
+            continue
+        events.append({"lang": lang, "site": "imported:" + case["shape"], "ref": ref, "defs": [d["name"] for d in oc["defs"]] + [d["name"] for d in op["defs"]],
+                       "prefix": case["prefix"], "param": "P", "target": c["target"]})
+        meta.append((lang, case, cons))
+    ok, matched, tres = common.trace_validate("Trace_C09", events, timeout=600)
+    chk.add_tlc("Trace_C09[imported]", tres)
+    if matched != len(events):
+        raise ToolError(f"Trace_C09 consumed {matched}/{len(events)}")
+    for b in tres.bad:
+        e = events[b - 1]
+        lang, case, cons = meta[b - 1]
+        exp = e["prefix"] + (e["target"]["rename"] or e["target"]["ident"])
+        chk.mismatch(f"C09/{lang}+folder/imported/{case['form']}/only-reference={case['shape']}/{'renamed' if case['renamed'] else 'plain'}/{'prefix' if e['prefix'] else 'noprefix'}/"
+                     f"def={'present' if exp in e['defs'] else 'absent'}",
+                     f"{lang}: the consumer crate's only reference to provider::Target ({case['shape']}) is spelled `{e['ref']}`, definition name required `{exp}`; "
+                     f"definitions of the run: {e['defs']}", {"case": case, "lang": lang, "site": "imported", "src": cons}, exp, e["ref"])
+    chk.traces += len(events) - len(tres.bad)
+    chk.extra["imported_events"] = len(events)
+    for e, m in zip(events, meta):
+        chk.judged((m[0], "imported", str(m[1])))
+
+
 def run(chk):
     chk.rule = ("spec->impl: target kind (struct, generic struct, unit enum, tagged enum, alias, recursive struct, recursive enum) x renamed? x second type renamed? "
                 "x prefix (MC_C09); every program generated in 6 languages; impl->spec: each reference site (field, Vec/Option/map value/map key/array element, generic "
@@ -270,10 +337,15 @@ def run(chk):
     chk.extra["trace_events"] = len(events)
     for e, m in zip(events, meta):
         chk.judged((m[0], str(m[1]), m[2]))
+    imported(chk)
 
 
 def replay(chk, rec):
     c = rec["case"]
+    if c.get("site") == "imported":
+        imported(chk)
+        chk.mismatches = {k: v for k, v in chk.mismatches.items() if k == rec["signature"]}
+        return
     ident = c["case"].get("ident", "Target")
     cases = [{"case": c["case"], "target": {"ident": ident, "rename": ident + "Renamed" if c["case"]["renamed"] else ""},
               "second": {"ident": "Second", "rename": "SecondRenamed" if c["case"]["second_renamed"] else ""}}]
